@@ -10,4 +10,11 @@ open Strengths.Gen.PyNumeric
 limited number of digits (the model computes its values exactly and its texts through `repr`) -/
 theorem rdgridspace_full_precision : fullPrecision inv_rdgridspace = true := by decide +kernel
 
+/-- the only maxima / minima / absolute values taken in `rdgridspace.py` are the per-axis distances of `are_neighbors` and their periodic images (integers); no amount, rate, time or
+coefficient is clamped, and no exception is swallowed -/
+theorem rdgridspace_no_clamping :
+    clamp_rdgridspace =
+      [("clamp", "abs(coord1[0]-coord2[0])"), ("clamp", "abs(coord1[1]-coord2[1])"), ("clamp", "abs(coord1[2]-coord2[2])"), ("clamp", "min(dx,abs(self.w-dx))"), ("clamp", "abs(self.w-dx)"), ("clamp", "min(dy,abs(self.h-dy))"), ("clamp", "abs(self.h-dy)"), ("clamp", "min(dz,abs(self.d-dz))"), ("clamp", "abs(self.d-dz)")] := by
+  decide +kernel
+
 end Strengths.PyNumeric
